@@ -68,11 +68,19 @@ def _stable_nonascii(ch):
         0x300 <= o <= 0x36F or o in (0x203F, 0x2040, 0x0660, 0x200c, 0x200d)
 
 
+# Other_ID_Start / Other_ID_Continue: identifier characters from ES2015 on,
+# not by the category rule of ES5 - engines disagree, the reference abstains
+OTHER_ID = frozenset('\u2118\u212e\u309b\u309c\xb7\u0387\u19da' + ''.join(
+    chr(c) for c in range(0x1369, 0x1372)))
+
+
 def is_id_start(ch):
     if ch in '$_' or 'a' <= ch <= 'z' or 'A' <= ch <= 'Z':
         return True
     if ord(ch) < 128:
         return False
+    if ch in OTHER_ID:
+        raise Abstain('other-id-start-continue')
     cat = unicodedata.category(ch)
     r = cat in ('Lu', 'Ll', 'Lt', 'Lm', 'Lo', 'Nl')
     if not _stable_nonascii(ch) and (r or cat in ('Mn', 'Mc', 'Nd', 'Pc',
@@ -88,6 +96,8 @@ def is_id_part(ch):
         return False
     if ch in '\u200c\u200d':
         return True
+    if ch in OTHER_ID:
+        raise Abstain('other-id-start-continue')
     cat = unicodedata.category(ch)
     r = cat in ('Lu', 'Ll', 'Lt', 'Lm', 'Lo', 'Nl', 'Mn', 'Mc', 'Nd', 'Pc')
     if not _stable_nonascii(ch) and (r or cat in ('Cn', 'Co', 'Cs')):
